@@ -269,6 +269,28 @@ def curve_ownership_check(ctx, case, where):
         ctx.fail("predicate", "component-reads-callers-curve-array", f"conversions of {ps} changed from {before} to {after} when the caller's array was rescaled", where)
 
 
+def strict_series_check(ctx, comp, curve, rated, where, rng_seed):
+    """Strict balance on a long series (the solver works in batches of 50) with an idle sample in it: every sample meets the
+    1e-6 figure and equals the strict result for that sample alone."""
+    lo, hi = comps.covered_range(curve)
+    lo, hi = max(lo, 0.05), min(hi, 0.95)
+    if hi <= lo:
+        return
+    r = np.random.default_rng(rng_seed)
+    q = -np.round(r.uniform(lo, hi, size=60) * rated * 0.9, 3)          # reverse flow: the branch that is solved
+    q[int(r.integers(60))] = 0.0
+    import warnings
+    with warnings.catch_warnings():
+        warnings.simplefilter("ignore")
+        arr = np.asarray(comp.get_power_input_from_bidirectional_output(q.copy(), strict_power_balance=True)[0], dtype=float)
+        one = np.array([float(comp.get_power_input_from_bidirectional_output(float(x), strict_power_balance=True)[0]) for x in q])
+    ctx.count("strict_series", "60 samples with an idle one")
+    worst = float(np.nanmax(np.abs(arr - one))) / rated
+    ctx.extra["max_strict_series_vs_scalar"] = max(ctx.extra.get("max_strict_series_vs_scalar", 0.0), worst)
+    if not np.all(np.isfinite(arr)) or worst > 1e-6:
+        ctx.fail("predicate", "strict-series-differs-from-strict-scalar", f"strict balance of 60 samples (one idle): differs from the samples one by one by {worst:.2e} of rated", where)
+
+
 def given_characteristic_check(ctx, comp, curve, where, label=""):
     """The component's efficiency is the characteristic it was constructed with: the given value everywhere for a single value,
     the given ordinate at every given load otherwise (whatever is done between the points)."""
@@ -289,6 +311,8 @@ def run_case(ctx, case, model=True):
     ctx.use_model = model
     if case["kind"] == "basic":
         curve_ownership_check(ctx, case, where)
+    if case["kind"] == "basic" and case.get("strict") and isinstance(case["curve"][0], list):
+        strict_series_check(ctx, build(case), case["curve"], case["rated"], where, case["idx"])
     if case["kind"] in ("basic", "gearbox", "machine"):
         try:
             given_characteristic_check(ctx, build(case), case["curve"], where)
